@@ -1,6 +1,7 @@
 """Registry: property id -> check function(res, tier, seed, replay)."""
-import p_mcb, p_comp
+import p_mcb, p_comp, p_vec
 REGISTRY = {}
 LEVEL = {}
 REGISTRY.update(p_mcb.REGISTRY)
 REGISTRY.update(p_comp.REGISTRY)
+REGISTRY.update(p_vec.REGISTRY)
